@@ -59,6 +59,7 @@ var plans = []Plan{
 		Jobs: []Job{
 			{Test: "TestC20_ErrorWriters", Shards: [2]int{8, 12}, Checks: [2]int{1500, 40000}, Timeout: [2]int{600, 3000}},
 			{Test: "TestC20_SuccessHeaders", Shards: [2]int{1, 1}, Timeout: [2]int{300, 300}},
+			{Test: "TestC20_StorageErrorsStayInternal", Shards: [2]int{6, 8}, Checks: [2]int{800, 12000}, Timeout: [2]int{600, 3000}},
 			{Test: "TestC20_StorageSecrets", Shards: [2]int{7, 12}, Checks: [2]int{400, 6000}, Timeout: [2]int{600, 3000}},
 		},
 	},
